@@ -113,6 +113,9 @@ func registerChecks() {
 			for i := 0; i < cx.N(2000, 80000); i++ {
 				cs = append(cs, genHistoryCase(cx, i))
 			}
+			for i := 0; i < cx.N(300, 8000); i++ {
+				cs = append(cs, genCgoHistory(cx, i))
+			}
 			return cs
 		},
 		Oracle: oracleC08,
@@ -211,6 +214,18 @@ func registerChecks() {
 				c.Ops = append(c.Ops, Op{Kind: OpFile, F: 0, Str: []string{"new", "", "p"}})
 				c.Ops = append(c.Ops, Op{Kind: OpFNew, S: 1, F: 0, Items: []SItem{first}}, Op{Kind: OpApp, S: 1, Items: d.Items}, Op{Kind: OpRender, F: 0})
 				cs = append(cs, c)
+				// the Group form of Add applied to ONE existing statement: the result is a NEW
+				// statement; extending it must not touch the argument, which is observed afterwards
+				c2 := &Case{ID: fmt.Sprintf("C14-addone-%d-%d", cx.Seed, i)}
+				c2.Ops = append(c2.Ops, Op{Kind: OpFile, F: 0, Str: []string{"new", "", "p"}})
+				x := g.expr(2)
+				c2.Ops = append(c2.Ops, Op{Kind: OpStmt, S: 1, Items: x.Items})
+				c2.Ops = append(c2.Ops, Op{Kind: OpFNew, S: 2, F: 0, Items: []SItem{&AddItems{Args: []Arg{Ref{Reg: 1}}}}})
+				c2.Ops = append(c2.Ops, Op{Kind: OpApp, S: 2, Items: []SItem{&Grp{Api: "Call"}}})
+				c2.Ops = append(c2.Ops, Op{Kind: OpFNew, S: 3, F: 0, Items: []SItem{&AddItems{Args: []Arg{Ref{Reg: 1}}}}})
+				c2.Ops = append(c2.Ops, Op{Kind: OpApp, S: 3, Items: []SItem{&Grp{Api: "Index", Args: []Arg{st(mkLit(0))}}}})
+				c2.Ops = append(c2.Ops, Op{Kind: OpFrag, S: 1, F: 0}, Op{Kind: OpRender, F: 0}, Op{Kind: OpFrag, S: 2, F: 0})
+				cs = append(cs, c2)
 			}
 			return cs
 		},
@@ -277,6 +292,9 @@ func genHistoryCase(cx *CheckCtx, i int) *Case {
 	if r.Chance(30) {
 		pool = collidingPool(r, 3+r.Intn(4))
 	}
+	if r.Chance(30) {
+		pool.Paths = append(pool.Paths, "C")
+	}
 	c := &Case{ID: fmt.Sprintf("C08-%d-%d", cx.Seed, i)}
 	cfg := defaultFileCfg
 	cfg.commentPct, cfg.anonPct = 0, 10
@@ -313,6 +331,11 @@ func genHistoryCase(cx *CheckCtx, i int) *Case {
 				st(kw("Default"), &Grp{Api: "Block", Args: body})}}}})
 			c.Ops = append(c.Ops, Op{Kind: OpFAdd, F: 0, Args: []Arg{st(kw("Func"), id(fmt.Sprintf("g%d", reg)), &Grp{Api: "Params"}, &Grp{Api: "Block", Args: []Arg{Ref{Reg: reg}}})}})
 		case 4:
+			if r.Chance(30) {
+				// a cgo preamble added between renders
+				c.Ops = append(c.Ops, Op{Kind: OpCgo, F: 0, Str: []string{"#include <x.h>"}})
+				break
+			}
 			p := pick(r, pool.Paths)
 			c.Ops = append(c.Ops, Op{Kind: OpHintName, F: 0, Str: []string{p, genHintName(r)}})
 		case 5:
